@@ -11,6 +11,7 @@ import Yld.Model.Api
 import Yld.Proofs.Program
 import Yld.Proofs.PyCorrect
 import Yld.Proofs.LogicNaf
+import Yld.Proofs.LogicIte
 namespace Yld.C06
 
 /-- `(A;B)`: A's answers, then B's. -/
@@ -142,5 +143,49 @@ theorem negation_succeeds_when_no_instance_is_provable (cfg : Cfg) (preds : List
     (∃ r : R, (r.2 = some .oof ∨ (∃ e, r.2 = some (.exn e)) ∨ r.1.cyc = true) ∧
       ∀ k : K, solve (query cfg f) env d (.neg (.call name sargs)) k w = r) :=
   naf_succeeds_when_not_provable cfg preds h f env d name sargs hname w hcl hsc hargs hno hsolv hcyc
+
+/-! ### If-then-else against the logical reading -/
+
+/-- `( C -> T ; E )` with a condition of which some instance follows from program and store never runs
+    its else branch: the outcome is the same whatever `E` is. -/
+theorem else_branch_is_dead_when_condition_provable (cfg : Cfg) (preds : List Pred) (h : HornCfg cfg preds)
+    (hnocut : ∀ p ∈ preds, ∀ c ∈ p.clauses, c.body.cutFree = true)
+    (f : Nat) (env : Env) (d : Nat) (name : String) (sargs : List STerm) (hname : userName name = true)
+    (t e1 e2 : Body) (w : World) (hcl : DbClosed w.db) (hsc : w.Scoped)
+    (hargs : ∀ a ∈ sargs.map (STerm.eval env), ∀ x ∈ a.vars, x < w.next)
+    (θ : Nat → Term) (hθ : Solves θ w.b)
+    (hh : HoldsF w.db preds name ((sargs.map (STerm.eval env)).map (Term.subst θ))) (k : K) :
+    solve (query cfg f) env d (.disj (.ite (.call name sargs) t) e1) k w =
+    solve (query cfg f) env d (.disj (.ite (.call name sargs) t) e2) k w :=
+  ite_else_not_run_when_condition_provable cfg preds h hnocut f env d name sargs hname t e1 e2 w hcl hsc hargs θ hθ hh k
+
+/-- With a condition of which no instance follows, the construct is its else branch, run with the bindings
+    and the store it started with — provided the search for the condition builds no cyclic term
+    (`hacyc`; without it the statement is false: `ite_is_else_statement_false`, a kernel-checked
+    counterexample with the condition `X = f(X)`, in which the *then* branch runs). -/
+theorem if_then_else_is_its_else_branch_when_condition_not_provable (cfg : Cfg) (preds : List Pred) (h : HornCfg cfg preds)
+    (f : Nat) (env : Env) (d : Nat) (name : String) (sargs : List STerm) (hname : userName name = true)
+    (t e : Body) (w : World) (hcl : DbClosed w.db) (hsc : w.Scoped)
+    (hargs : ∀ a ∈ sargs.map (STerm.eval env), ∀ x ∈ a.vars, x < w.next)
+    (hno : ∀ θ, Solves θ w.b → ¬ HoldsF w.db preds name ((sargs.map (STerm.eval env)).map (Term.subst θ)))
+    (hsolv : Solvable w.b)
+    (hacyc : (solve (query cfg f) env d (.neg (.call name sargs)) (fun w' => (w', none)) w).1.cyc = false) :
+    (∃ w', w'.b = w.b ∧ w'.db = w.db ∧
+      ∀ k : K, solve (query cfg f) env d (.disj (.ite (.call name sargs) t) e) k w = solve (query cfg f) env d e k w') ∨
+    (∃ r : R, (r.2 = some .oof ∨ (∃ x, r.2 = some (.exn x)) ∨ r.1.cyc = true) ∧
+      ∀ k : K, solve (query cfg f) env d (.disj (.ite (.call name sargs) t) e) k w = r) :=
+  ite_is_else_when_condition_not_provable cfg preds h f env d name sargs hname t e w hcl hsc hargs hno hsolv hacyc
+
+/-- … and `( C -> T )` without else then simply fails. -/
+theorem if_then_fails_when_no_instance_of_the_condition_is_provable (cfg : Cfg) (preds : List Pred) (h : HornCfg cfg preds)
+    (f : Nat) (env : Env) (d : Nat) (name : String) (sargs : List STerm) (hname : userName name = true)
+    (t : Body) (w : World) (hcl : DbClosed w.db) (hsc : w.Scoped)
+    (hargs : ∀ a ∈ sargs.map (STerm.eval env), ∀ x ∈ a.vars, x < w.next)
+    (hno : ∀ θ, Solves θ w.b → ¬ HoldsF w.db preds name ((sargs.map (STerm.eval env)).map (Term.subst θ)))
+    (hsolv : Solvable w.b)
+    (hacyc : (solve (query cfg f) env d (.neg (.call name sargs)) (fun w' => (w', none)) w).1.cyc = false) :
+    ∃ r : R, (r.2 = none ∨ r.2 = some .oof ∨ (∃ x, r.2 = some (.exn x)) ∨ r.1.cyc = true) ∧
+      ∀ k : K, solve (query cfg f) env d (.ite (.call name sargs) t) k w = r :=
+  if_then_fails_when_condition_not_provable cfg preds h f env d name sargs hname t w hcl hsc hargs hno hsolv hacyc
 
 end Yld.C06
